@@ -333,6 +333,21 @@ func init() {
 	du := "(time.Duration)."
 	libSpecs[du+"Milliseconds"] = func(c *callCtx) Val { return c.def("ms", app("tdiv", c.args[0].S, "1000000")) }
 	libSpecs[du+"Nanoseconds"] = id0
+	// Duration.Truncate(m): toward zero to a multiple of m (d itself for m <= 0)
+	libSpecs[du+"Truncate"] = func(c *callCtx) Val {
+		d, m := c.args[0].S, c.args[1].S
+		return c.def("dtrunc", ite(app("<=", m, "0"), d, app("-", d, app("trem", d, m))))
+	}
+	// Duration.Round(m): to the nearest multiple of m, halfway values away from zero (d itself for m <= 0; the
+	// saturation at the int64 range is not modelled)
+	libSpecs[du+"Round"] = func(c *callCtx) Val {
+		d, m := c.args[0].S, c.args[1].S
+		r := app("trem", d, m)
+		pos := ite(app("<", app("+", r, r), m), app("-", d, r), app("-", app("+", d, m), r))
+		nr := app("-", r)
+		neg := ite(app("<", app("+", nr, nr), m), app("+", d, nr), app("+", app("-", d, m), nr))
+		return c.def("dround", ite(app("<=", m, "0"), d, ite(app(">=", d, "0"), pos, neg)))
+	}
 	libSpecs[du+"Microseconds"] = func(c *callCtx) Val { return c.def("us", app("tdiv", c.args[0].S, "1000")) }
 
 	// ---- errors / fmt ----
